@@ -122,6 +122,13 @@ func (g *verifC37GCM) Open(dst, nonce, ciphertext, additionalData []byte) ([]byt
 	}
 	ct, tag := ciphertext[:len(ciphertext)-16], ciphertext[len(ciphertext)-16:]
 	if !bytes.Equal(tag, g.tag(nonce, ct)) {
+		// documented: "even if the function fails, the contents of dst, up to its capacity,
+		// may be overwritten" - the spare capacity of dst gets arbitrary bytes
+		spare := dst[len(dst):cap(dst)]
+		if len(spare) > len(ct) {
+			spare = spare[:len(ct)]
+		}
+		copy(spare, verifInternalBytes("open-failure-clobber", len(spare)))
 		return nil, errors.New("cipher: message authentication failed")
 	}
 	ks := g.stream(nonce, len(ct))
